@@ -1,7 +1,6 @@
 //! C09 — notations defined by expansion compile like their hand-expanded form (structural clauses).
 use crate::model::{self, tok, FnInfo, Model};
 use crate::report::Ctx;
-use crate::rules::util::*;
 use serde_json::json;
 use std::collections::BTreeSet;
 
@@ -147,11 +146,70 @@ fn scope(m: &Model, ctx: &mut Ctx) {
     }
 }
 
+/// C09.order: inside the single linking pass every step that *imports* IR from another definition into the current one
+/// (COMPONENTS OF, selection types, class-field types, object-set references) runs before the steps that resolve
+/// references inside the current definition (constraint references, DEFAULT/value linking, recursion marking): each
+/// step runs once per name, so whatever is imported after the resolving steps stays unresolved whenever the
+/// referenced definition has not been linked yet — which depends only on how the two names sort.
+fn order(m: &Model, ctx: &mut Ctx) {
+    let Some(f) = m.fns.iter().find(|f| f.name == "link" && f.self_ty.as_deref() == Some("Validator")) else {
+        ctx.fail_closed("C09.order", "anchor not found: Validator::link");
+        return;
+    };
+    ctx.func(&f.key);
+    // the loop over the key list
+    struct W {
+        body: Option<syn::Block>,
+    }
+    impl model::DeepCb for W {
+        fn expr(&mut self, e: &syn::Expr) {
+            if let syn::Expr::While(w) = e {
+                if self.body.is_none() && tok(&w.cond).contains("keys.pop()") {
+                    self.body = Some(w.body.clone());
+                }
+            }
+        }
+    }
+    let mut w = W { body: None };
+    model::deep_walk_block(&f.block, &mut w);
+    let Some(body) = w.body else {
+        ctx.fail_closed("C09.order", "Validator::link: the loop over the popped keys was not found");
+        return;
+    };
+    let importers = ["resolve_class_reference", "link_components_of_notation", "link_choice_selection_type", "link_object_set_reference", "resolve_object_set_references"];
+    let resolvers = ["link_constraint_reference", "collect_supertypes", "mark_recursive"];
+    let mut pos: std::collections::BTreeMap<String, (usize, usize)> = std::collections::BTreeMap::new();
+    for (i, st) in body.stmts.iter().enumerate() {
+        let blk = syn::Block { brace_token: Default::default(), stmts: vec![st.clone()] };
+        for mc in model::method_calls_in(&blk) {
+            let n = mc.method.to_string();
+            if importers.contains(&n.as_str()) || resolvers.contains(&n.as_str()) {
+                pos.entry(n).or_insert((i, model::line_of(syn::spanned::Spanned::span(&mc))));
+            }
+        }
+    }
+    for n in importers.iter().chain(resolvers.iter()) {
+        if !pos.contains_key(*n) {
+            ctx.fail_closed("C09.order", &format!("Validator::link: step `{}` not found as a statement of the key loop", n));
+        }
+    }
+    for imp in importers {
+        for res in resolvers {
+            let (Some((pi, li)), Some((pr, _))) = (pos.get(imp), pos.get(res)) else { continue };
+            ctx.oblige("C09.order", &format!("{}<{}", imp, res), true);
+            if pi >= pr {
+                ctx.violate("C09.order", &format!("{}-after-{}", imp, res), &f.file, *li,
+                    &format!("Validator::link runs `{}` (which copies parts of another definition into the current one) after `{}`: what it copies from a definition that has not been linked yet is never resolved, so the result depends on whether the referenced name sorts before or after the referencing one", imp, res));
+            }
+        }
+    }
+}
+
 pub fn run(m: &Model, ctx: &mut Ctx) {
     ctx.explanation = "C09.sym: each detector/rewriter pair of the linker (contains_components_of_notation / link_components_of_notation, has_choice_selection_type / link_choice_selection_type, \
 contains_constraint_reference / link_constraint_reference, references_class_by_name / resolve_class_reference) must traverse the same container variants of ASN1Type: a container the detector enters but the rewriter does not (or vice versa) leaves a notation unexpanded at that position. \
 C09.splice: COMPONENTS OF members are spliced at the position of the notation (not appended), only root components of the referenced type are taken, and the referenced type may be a SEQUENCE or a SET. \
-C09.noskip: linker errors are not discarded (shared with C10.discard). \
+C09.order: in Validator::link every importing step (class-field types, COMPONENTS OF, selection types, object-set references) precedes the resolving steps (constraint references, collect_supertypes, mark_recursive) of the same key. C09.scope: named numbers in a constraint are looked up under the governing type. C09.noskip: linker errors are not discarded (shared with C10.discard). \
 Not applicable: the equivalence sugared = expanded itself, independence from the order of names (the single pass reads other definitions in whatever link state they are), parameter substitution and selection types beyond the traversal symmetry.".into();
     ctx.assumptions = vec!["the IR container variants are Sequence, Set, SequenceOf, SetOf, Choice".into()];
     ctx.rule("sibling agreement of detector/rewriter traversals; insertion-position rule for COMPONENTS OF");
@@ -188,6 +246,7 @@ Not applicable: the equivalence sugared = expanded itself, independence from the
     }
 
     scope(m, ctx);
+    order(m, ctx);
 
     // ---------------- splice ----------------
     if let Some(f) = m.fns.iter().find(|f| f.name == "link_components_of_notation" && f.self_ty.as_deref() == Some("ASN1Type")) {
